@@ -1266,7 +1266,7 @@ impl ManageConnection for ServerPool {
         {
             let (bad, in_tx, in_copy, da, dirty) = conn.verif_state();
             crate::vtrace!("put_back", "spid" => conn.verif_pid(), "addr" => self.address.id,
-                "broken" => conn.is_bad(), "bad" => bad, "in_tx" => in_tx, "in_copy" => in_copy,
+                "bad" => bad, "in_tx" => in_tx, "in_copy" => in_copy,
                 "da" => da, "dirty" => dirty);
         }
         conn.is_bad() || conn.is_unclean()
